@@ -220,6 +220,9 @@ func init() {
 			ps := fr.i.ps
 			ps.logWrites = true
 			ps.writes = ps.writes[:0]
+			ps.reads = ps.reads[:0]
+			ps.onceWrites = nil
+			ps.oncePass = nil
 			ps.mapWrites = ps.mapWrites[:0]
 			return nil
 		},
@@ -228,6 +231,7 @@ func init() {
 			return nil
 		},
 		"zzWritesInto": zzWritesInto,
+		"zzRacyReads":  zzRacyReads,
 		"zzSyncEvents": func(fr *frame, args []value) value {
 			return strings.Join(fr.i.ps.syncEvents, ",")
 		},
@@ -251,8 +255,31 @@ func zzIte(fr *frame, args []value) value {
 
 // zzWritesInto(roots ...any) int: number of logged writes whose address lies in
 // a cell reachable from roots (structure fields, array/slice elements, map values, pointees).
+func reachableCells(roots []value) map[*value]bool {
+	cells, _ := reachable(roots)
+	return cells
+}
+
+// zzWritesInto(roots ...any) int: number of logged writes whose address lies in
+// a cell (or Go map) reachable from roots.
 func zzWritesInto(fr *frame, args []value) value {
 	ps := fr.i.ps
+	cells, seenMaps := reachable(args[0].([]value))
+	n := 0
+	for _, w := range ps.writes {
+		if cells[w] {
+			n++
+		}
+	}
+	for _, m := range ps.mapWrites {
+		if seenMaps[m] {
+			n++
+		}
+	}
+	return n
+}
+
+func reachable(roots []value) (map[*value]bool, map[*gmap]bool) {
 	cells := map[*value]bool{}
 	seenMaps := map[*gmap]bool{}
 	var visitCell func(p *value)
@@ -305,19 +332,33 @@ func zzWritesInto(fr *frame, args []value) value {
 		cells[p] = true
 		visitVal(*p)
 	}
-	for _, r := range args[0].([]value) {
+	for _, r := range roots {
 		visitVal(r)
 	}
+	return cells, seenMaps
+}
+
+// zzRacyReads(roots ...any) int: number of logged non-atomic loads of cells reachable from
+// roots that are written inside a sync.Once.Do, where the load happened outside that Once
+// and before the loading thread had returned from that Once's Do (such a load is not
+// ordered after the initialisation by the Go memory model: a data race with a concurrent
+// first caller).
+func zzRacyReads(fr *frame, args []value) value {
+	ps := fr.i.ps
+	cells := reachableCells(args[0].([]value))
 	n := 0
-	for _, w := range ps.writes {
-		if cells[w] {
-			n++
+	for _, r := range ps.reads {
+		if !cells[r.addr] {
+			continue
 		}
-	}
-	for _, m := range ps.mapWrites {
-		if seenMaps[m] {
-			n++
+		o, ok := ps.onceWrites[r.addr]
+		if !ok || r.once == o {
+			continue
 		}
+		if pass, ok := ps.oncePass[o]; ok && r.seq > pass {
+			continue
+		}
+		n++
 	}
 	return n
 }
